@@ -347,7 +347,9 @@ func (ex *Exec) onLock(st *State, fr *Frame, k string, recv Val, pos token.Pos) 
 	}
 	// contract clauses that speak about the state right after this Lock()
 	if top := ex.topFrame; top != nil && top.ct != nil && fr == top {
-		ex.lockSnap = st.clone()
+		snap0 := st.clone()
+		snap0.lockSnap = nil
+		st.lockSnap = snap0
 		for _, cl := range top.ct.AfterLockAssume {
 			ex.assume(st, ex.evalBool(top, st, top.entry, nil, cl.Expr))
 			ex.vc.Trust("assumed after Lock() in " + funcName(top.fn) + ": " + cl.Text)
@@ -357,7 +359,9 @@ func (ex *Exec) onLock(st *State, fr *Frame, k string, recv Val, pos token.Pos) 
 			ex.assume(st, ex.applyLemma(top, st, c, ap, funcName(top.fn)))
 		}
 	}
-	ex.lockSnap = st.clone()
+	snap := st.clone()
+	snap.lockSnap = nil
+	st.lockSnap = snap
 }
 
 func sortedCompKeys(m map[string]compInfo) []string {
@@ -456,6 +460,31 @@ func (ex *Exec) invConjuncts(fr *Frame, st *State, ld *LockDecl, ref string, own
 }
 
 func (ex *Exec) onUnlock(st *State, fr *Frame, k string, recv Val, pos token.Pos) {
+	if top := ex.topFrame; top != nil && top.ct != nil && fr == top && st.lockSnap != nil {
+		for _, cl := range top.ct.UnlockAsserts {
+			term, ok := func() (t string, ok bool) {
+				defer func() {
+					if r := recover(); r != nil {
+						if e, isEval := r.(evalErr); isEval && strings.Contains(e.msg, "unknown name") {
+							// a local the clause mentions is not declared yet at this Unlock()
+							ex.vc.Trust("assert_at_unlock clause skipped at an Unlock() that precedes the declaration of a local it mentions: " + cl.Text)
+							ok = false
+							return
+						}
+						panic(r)
+					}
+				}()
+				return ex.evalBool(top, st, top.entry, nil, cl.Expr), true
+			}()
+			if !ok {
+				continue
+			}
+			o := ex.oblige(st, fr, "assert-at-unlock", pos, cl.Text, term)
+			if o != nil && len(cl.Props) > 0 {
+				o.Props = cl.Props
+			}
+		}
+	}
 	p, ok := recv.(*PtrI)
 	if !ok {
 		return
